@@ -201,6 +201,7 @@ func (vc *funcVC) run() (err error) {
 		tr := &trans{c: c, pkg: cl.Target, vars: map[string]tvar{}, cur: st, old: st, depth: 1}
 		c.assume(vc.trClause(tr, cl))
 	}
+	vc.lemmaInstances(nil, st, "true")
 	nReq := len(c.assumes)
 	if vc.safety && vc.recursive(fn) {
 		hasDec := false
@@ -1171,12 +1172,16 @@ func (vc *funcVC) lemmaInstances(pre, post *state, guard string) {
 	}
 	c := vc.c
 	for _, lm := range vc.w.db.Lemmas {
-		if !lm.TwoState || !strings.HasPrefix(lm.Label, vc.layer+".") {
-			continue
+		if !strings.HasPrefix(lm.Label, vc.layer+".") || (!lm.TwoState && lm.Measure == nil) {
+			continue // plain one-state lemmas are statements about the spec functions only (checked, not used)
 		}
 		reads := vc.w.lemmaReads(lm)
-		for i, old := range []*state{pre, vc.entry} {
-			if i == 1 && old == pre {
+		olds := []*state{pre, vc.entry}
+		if !lm.TwoState {
+			olds = []*state{post} // a one-state lemma holds in every state: instantiated where its footprint is new
+		}
+		for i, old := range olds {
+			if old == nil || (i == 1 && old == pre) {
 				continue
 			}
 			differs := false
@@ -1194,10 +1199,13 @@ func (vc *funcVC) lemmaInstances(pre, post *state, guard string) {
 					break
 				}
 			}
-			if !differs {
+			if lm.TwoState && !differs {
 				continue
 			}
-			key := "lemma|" + lm.Label + "|" + fmt.Sprint(i) + "|" + guard
+			key := "lemma|" + lm.Label + "|" + fmt.Sprint(i) + "|"
+			if lm.TwoState {
+				key += guard
+			}
 			for _, k := range sortedKeys(reads) {
 				key += "|" + old.heap[k] + ">" + post.heap[k]
 			}
@@ -1219,7 +1227,11 @@ func (vc *funcVC) lemmaInstances(pre, post *state, guard string) {
 				return tr.formula(lm.Expr), true
 			}()
 			if ok {
-				c.assume(implies(guard, f))
+				if lm.TwoState {
+					c.assume(implies(guard, f))
+				} else {
+					c.assume(f)
+				}
 				c.usedAxioms["lemma "+lm.Label+" (proved as obligation lemma/"+lm.Label+")"] = true
 			}
 		}
